@@ -499,6 +499,10 @@ def rekey_item(item, acc):
             # reserved before the answer, message sent after it); the re-exchange only widens the window
             racing_writer = clause.startswith("data-after-own") and str(d.get("op", "")).startswith("send")
             key = make_key(clause, d, "writer-racing-close-or-shutdown" if racing_writer else "crossing-a-re-exchange")
+            if clause == "message-sent-on-released-channel" and d.get("type") in DATA_TYPES \
+                    and str(d.get("op", "")).startswith("send"):
+                # the same message as the data-after-own-close report of the racing writer
+                key = "data-after-own-close:send*:writer-racing-close-or-shutdown"
             if clause == "message-sent-on-released-channel" and d.get("type") == MSG_CHANNEL_EOF \
                     and d.get("op") in ("shutdown_write", "shutdown2"):
                 # the user's shutdown marked the write side shut before the peer's CLOSE was answered, its EOF
